@@ -578,6 +578,13 @@ func ruleQuit(c *Ctx) {
 // ruleHandlerErrorKeepsConn: R03.e (+ R05.d response provenance).
 func ruleHandlerErrorKeepsConn(c *Ctx, rid string) {
 	c.rule(rid, "in the connection loop, after the handler call, every loop exit is controlled by the ErrQuit test or by the response writer's own error; the message passed to the response writer is the handler's message, or NewErrorMessage(handler error) exactly on the paths where that error is non-nil and not ErrQuit")
+	ruleExitsAfterHandler(c, rid, true, true)
+}
+
+// ruleExitsAfterHandler: the loop-exit part (and optionally the reply-provenance part) of the rule
+// above. With allowWriteErr false a failed reply write must not end the loop either: the
+// requests already received completely behind it still have to be executed (C11).
+func ruleExitsAfterHandler(c *Ctx, rid string, allowWriteErr, provenance bool) {
 	for _, cl := range c.P.connLoops() {
 		if cl.Loop == nil || cl.Handle == nil {
 			continue
@@ -601,7 +608,7 @@ func ruleHandlerErrorKeepsConn(c *Ctx, rid string) {
 							allowed = true
 						}
 					}
-					if at.Kind == "nil" && !at.Pos {
+					if at.Kind == "nil" && !at.Pos && allowWriteErr {
 						if call, ok := at.X.(*ssa.Call); ok {
 							for _, r := range cl.Resp {
 								if r == call {
@@ -614,12 +621,19 @@ func ruleHandlerErrorKeepsConn(c *Ctx, rid string) {
 				if !allowed {
 					bad++
 					last := b.Instrs[len(b.Instrs)-1]
-					c.bad(rid, fmt.Sprintf("%s/exit@block-after-handler#%d", key, bad), c.P.instrPos(last), "the connection loop is left after a handler call on a path not controlled by the QUIT sentinel or a write error: a handler error would end the connection", blockPath(c.P, []*ssa.BasicBlock{b, s})...)
+					msg := "the connection loop is left after a handler call on a path not controlled by the QUIT sentinel or a write error: a handler error would end the connection"
+					if !allowWriteErr {
+						msg = "the connection loop is left after a handler call on a path not controlled by the QUIT sentinel (a failed reply write included): requests already received completely behind this one are never executed"
+					}
+					c.bad(rid, fmt.Sprintf("%s/exit@block-after-handler#%d", key, bad), c.P.instrPos(last), msg, blockPath(c.P, []*ssa.BasicBlock{b, s})...)
 				}
 			}
 		}
 		if bad == 0 {
 			c.ok(rid, key+"/exits", c.P.instrPos(cl.Handle), "all loop exits after the handler call are controlled by ErrQuit or the write error")
+		}
+		if !provenance {
+			continue
 		}
 		// response message provenance
 		for i, r := range cl.Resp {
